@@ -200,9 +200,9 @@ def run(prop, tier, seed, unit_results):
     if prop == 'C20':
         try:
             rec, nf = c20_recursion_scan()
-            covered = {'update_stages_blocks', 'update_stages', 'add_types_recursive', 'rust_type'}
+            covered = {'update_stages_blocks', 'update_stages', 'add_types_recursive', 'rust_type', 'token_text'}
             # recursion that is structural on an input tree and visits each node once, stated (not proved: the bodies are outside Verus)
-            structural = {'token_text': 'recursion on the nesting of proc_macro2 token groups of the generated module: every token is visited once (TRUSTED stub in unit libmain)'}
+            structural = {}  # token_text (recursion on the nesting of token groups) is under a termination contract since unit `canon`
             res['report']['recursion_scan'] = {'functions': nf, 'recursive': rec, 'under_cost_or_termination_contract': sorted(covered), 'structural_recursion_trusted': structural,
                                                'level': 'syntactic call graph of the non-test sources (bounded stand-in, not a proof): recursion occurs only in the functions whose cost / termination is under contract'}
             extra_rec = [f for f in rec if f not in covered and f not in structural]
